@@ -12,7 +12,16 @@ typedef signed char i8; typedef short i16; typedef int i32; typedef long i64; ty
 #define VF_MAXB 32
 #endif
 /* operator new: malloc that never fails (DESIGN 3.1 item 5) */
+#ifdef VF_NEW_SPLIT
+/* the same allocation, case-split over the requested size (sizes 0..VF_NEW_SPLIT get an object of exactly that CONSTANT size, which keeps
+   byte-level accesses to it cheap for the solver; larger requests fall back to the symbolic-size allocation): semantics unchanged */
+static void *vf_new(u64 n){ void *p;
+  if (n > VF_NEW_SPLIT) p = malloc(n);
+  else { p = 0; for (u64 k = 0; k <= VF_NEW_SPLIT; ++k) if (n == k) p = malloc(k == 0 ? 1 : k); }
+  __CPROVER_assume(p != 0); return p; }
+#else
 static void *vf_new(u64 n){ void *p = malloc(n); __CPROVER_assume(p != 0); return p; }
+#endif
 static void vf_delete(void *p){ free(p); }
 /* memmove/memcpy/memset with a SYMBOLIC size: byte-loop model, bound VF_MAXB (constant sizes use CBMC's built-ins) */
 static void *vf_memset(void *d, int c, unsigned long n){
